@@ -7,5 +7,6 @@ CONSTANTS
   Slack = 999
   Gran = 1
   MinWait = 1000
+  Prompt = 1000
 INVARIANT Inv_C01 Inv_C02 Inv_C03 Inv_C09 Inv_C10 Inv_C11 Summary
 POSTCONDITION TraceAccepted
